@@ -204,10 +204,10 @@ def tagged_union_model(rep: common.Report) -> int:
             built[key] = type(f"TU{len(built)}", (TaggedUnion,), ns)
         TU = built[key]
         data = bridge.dec_data(c["data"])
-        label = f"TaggedUnion{[(n_, bridge.type_expr(T)) for n_, T in c['tags']]} <- {json.dumps(data)} (additional_properties={c['addl']})"
+        label = f"TaggedUnion{[(n_, bridge.type_expr(T)) for n_, T in c['tags']]} <- {json.dumps(data)} (additional_properties={c['addl']}, fall_back_on_default={c['fbd']})"
         n += 1
         try:
-            got = deserialize(TU, data, additional_properties=c["addl"])
+            got = deserialize(TU, data, additional_properties=c["addl"], fall_back_on_default=c["fbd"])
             out = {"kind": "ok", "tagged": get_tagged(got)}
         except ValidationError as err:
             out = {"kind": "verr", "errs": bridge.enc_errors(err.errors), "order_ok": bridge.errors_order_ok(err.errors)}
@@ -242,7 +242,7 @@ def tagged_union_model(rep: common.Report) -> int:
                 ok = False
             if not ok:
                 rep.violation(f"[serialize] {label}: serialize gives {ser!r}, expected {json.dumps(c['ser'])[:200]}", {"case": c})
-            elif get_tagged(deserialize(TU, ser, additional_properties=c["addl"]))[0] != tag:
+            elif get_tagged(deserialize(TU, ser, additional_properties=c["addl"], fall_back_on_default=c["fbd"]))[0] != tag:
                 rep.violation(f"[roundtrip] {label}: {ser!r} does not come back under tag {tag}", {"case": c})
         else:
             if out["kind"] == "ok":
